@@ -191,6 +191,10 @@ def check_case(case):
     early = xyz.Crop(name="k", parent_dir=d) if core.pick(
         [N, mode, req, sub, form, "early"], 4) == 0 and not case.get("live") \
         else None
+    if early is not None and core.pick([N, mode, req, sub, form, "earlyfn"],
+                                       2):
+        # (... made with the function, as the sowing object is)
+        early = xyz.Crop(fn=f, name="k", parent_dir=d)
     if case["shuffle"] and core.pick([N, mode, req, sub, "ctor"], 3) == 0:
         # (a shuffle given to the constructor only; the sow call leaves its
         # own option at the default)
